@@ -129,14 +129,22 @@ func (m *mux) Vars(r *http.Request) map[string]string {
 	if len(params.Keys) == 0 {
 		return nil
 	}
+	// chi matches the escaped path (URL.RawPath) when there is one, the
+	// captured values are then still escaped. Otherwise the values come from
+	// URL.Path which is already decoded and must not be decoded again.
+	escaped := r.URL.RawPath != ""
 	vars := make(map[string]string, len(params.Keys))
 	for i, k := range params.Keys {
+		v := params.Values[i]
+		if escaped {
+			v = unescape(v)
+		}
 		if k == "*" {
 			wildcard := m.wildcards[r.Method+"::"+ctx.RoutePattern()]
-			vars[wildcard] = unescape(params.Values[i])
+			vars[wildcard] = v
 			continue
 		}
-		vars[k] = unescape(params.Values[i])
+		vars[k] = v
 	}
 	return vars
 }
